@@ -849,3 +849,45 @@ def rule_placeholder(ctx) -> RuleResult:
         res.notes.append("chunk_reduce no longer uses a missing-label placeholder: rule not applicable")
         res.min_instances = 0
     return res
+
+
+# ---------------------------------------------------------------------------------------------
+# R-INTINDEX (C19, C02): values handed to np.unravel_index are integer-typed on every plan.
+# Arg reductions carry positions through the same `.astype(dtype)` pipeline as values.  The slot that holds the *index* of the block extreme
+# is pinned to np.intp by every arg-reduction blueprint (registry: dtypes[1]); the slot of the eager path (`_reduce_blockwise`,
+# intermediates[0]) is cast to the FINAL dtype, which _normalize_dtype widens to floating for a NaN / fractional fill_value (R-FILLWIDEN).
+# np.unravel_index rejects floats ("only int indices permitted"), so a first argument must be either an explicit integer cast or a slot
+# that the registry pins to an integer dtype.
+def rule_intindex(ctx) -> RuleResult:
+    res = RuleResult("R-INTINDEX", "np.unravel_index only receives integer-typed positions", min_instances=2)
+    from .. import tables as T
+    pinned = all(isinstance(rec.args.get("dtypes"), tuple) and len(rec.args["dtypes"]) > 1 and str(rec.args["dtypes"][1]) == str(T.INTP)
+                 for _k, rec in ctx.registry.agg_items() if not rec.errors and rec.args.get("reduction_type") == "argreduce")
+    n = 0
+    for q, f in sorted(ctx.prog.funcs.items()):
+        if isinstance(f.node, ast.Lambda):
+            continue
+        for c in walk_own(f.node):
+            if not (isinstance(c, ast.Call) and norm(c.func) in ("np.unravel_index", "numpy.unravel_index") and c.args):
+                continue
+            n += 1
+            x = c.args[0]
+            cast = isinstance(x, ast.Call) and isinstance(x.func, ast.Attribute) and x.func.attr == "astype" and x.args \
+                and norm(x.args[0]) in ("np.intp", "np.int64", "np.int_", "int", "'intp'", "'int64'")
+            slot = None
+            if isinstance(x, ast.Subscript) and isinstance(x.slice, ast.Constant) and isinstance(x.value, ast.Subscript) \
+                    and isinstance(x.value.slice, ast.Constant) and x.value.slice.value == "intermediates":
+                slot = x.slice.value
+            plain_index = isinstance(x, ast.Name) or (isinstance(x, ast.Subscript) and slot is None)      # flat block numbers, loop indices: integers by construction
+            ok = cast or (slot is not None and slot >= 1 and pinned) or plain_index
+            why = "explicit integer cast" if cast else (f"slot {slot} pinned to intp by every arg-reduction blueprint" if (slot is not None and slot >= 1 and pinned)
+                                                        else ("integer index by construction" if plain_index else f"slot {slot}: cast to the final dtype, which may be floating"))
+            res.inst(f"{q}: np.unravel_index({norm(x)[:50]}, …): {why}", f"{q}|{norm(x)[:40]}")
+            if not ok:
+                res.report(f"{q}|unravel-of-final-dtype-slot", f.where(c), q,
+                           f"'{norm(c)[:70]}' unravels a value that chunk_reduce has cast to the final dtype; with fill_value=np.nan (or any fractional fill) that dtype "
+                           "is floating and NumPy raises TypeError 'only int indices permitted' for the in-memory call, while the chunked plans return the float result")
+    if n == 0:
+        res.notes.append("np.unravel_index is not used")
+        res.min_instances = 0
+    return res
